@@ -86,7 +86,7 @@ SRC = {
     "C07": "bounds_control (coordinate-wise clamp), binomial, the donor strategies best_1 / rand_1 / rand_to_best1 / current_to_best_1 / best_2 / rand_2 / current_to_pbest_1_archive (= DE.donor / currentToPbest1 on the rows named by random_sample, read over the ring Int; with random_sample as translated: DISTINCT members, asked for without replacement)",
     "C08": "get_levels_tree_from_i (= levels, for every arity array); the Python-level operator shrink_mutation (= shrinkMut at the drawn position and argument, through the translated Tree methods)",
     "C09": "find_end_subtree_from_i, find_id_args_from_i, find_first_difference_between_two, common_region_two_trees, Tree.subtree_id / subtree / concat (equal to the model on every well-formed tree, with no out-of-range access)",
-    "C11": "binary_search_interval, check_for_value, argsort_k, tournament_selection, sattolo_shuffle, random_sample, random_weighted_sample",
+    "C11": "binary_search_interval, check_for_value, argsort_k, tournament_selection (incl. the arguments it passes to random_sample: len(fitness), tour_size, replace=False), proportional_selection / rank_selection (weights = fitness / rank, with replacement), sattolo_shuffle, random_sample, random_weighted_sample",
     "C16": "EvolutionaryAlgorithm._get_n_jobs (= normJobs)",
     "C19": "the integer counting loops of recall_score, precision_score and f1_score (= recallLoop / precisionLoop / f1Loop; in range on admissible labels)",
 }
